@@ -93,7 +93,10 @@ def iso_text(case):
     loc = case["loc"]
     w = wall_fields(loc - loc % M)
     f = case.get("fmt", {})
-    s = w.strftime("%Y-%m-%d") + f.get("sep", "T") + w.strftime("%H:%M:%S")
+    if f.get("basic"):
+        s = w.strftime("%Y%m%d") + "T" + w.strftime("%H%M%S")
+    else:
+        s = w.strftime("%Y-%m-%d") + f.get("sep", "T") + w.strftime("%H:%M:%S")
     digits = f.get("digits", 6)
     frac = f"{loc % M:06d}"[:digits] if digits <= 6 else f"{loc % M:06d}" + case.get("extra", "")
     if frac:
@@ -144,7 +147,9 @@ def dur_value(d):
         return d[1]
     if k == "float":
         return float.fromhex(d[1])
-    return {"str": "1.0", "none": None, "list": [1]}[d[1]]
+    from decimal import Decimal
+
+    return {"str": "1.0", "none": None, "list": [1], "fraction": Fraction(1, 3), "decimal": Decimal("1.5")}[d[1]]
 
 
 def ek(e):
@@ -209,7 +214,7 @@ class C13(Prop):
     LEVEL_TEXT = (
         "Machine-checked Lean 4 theorems (ms_floor_float from the rounding-error bound for every microsecond "
         "value; normalised/init_normalised for every instant and every whole-millisecond offset; duration_exact, "
-        "duration_float_near for every double; json_roundtrip, copy_roundtrip, json_shape) over a "
+        "duration_float_near for every double; json_roundtrip for |D| <= 2^43 µs, copy_roundtrip, json_shape) over a "
         "statement-for-statement model of models.py with IEEE-754 binary64 arithmetic modelled on rationals; "
         "model compared with the real Event/jsonschema/json on every run"
     )
@@ -303,7 +308,7 @@ class C13(Prop):
                                 rng.randint(0, 10**12) / 2**20])
             return ["float", float(f).hex()]
         if r < 0.975:
-            return ["other", rng.choice(["str", "none", "list"])]
+            return ["other", rng.choice(["str", "none", "list", "fraction", "decimal"])]
         return rng.choice([["int", 10**15], ["float", (1e300).hex()], ["float", (8.64e13).hex()],
                            ["int", -86400 * 10**9 - 1], ["int", 86400 * 10**9 - 1], ["int", 86400 * 10**9],
                            ["int", -86400 * 999999999]])
@@ -331,6 +336,8 @@ class C13(Prop):
                 digits = 3
             case["fmt"] = {"sep": rng.choice(["T", "T", " "]), "dot": rng.choice([".", ".", ","]),
                            "digits": digits, "offstyle": rng.choice(["hh:mm", "hh:mm", "hhmm", "hh"])}
+            if rng.random() < 0.08:
+                case["fmt"]["basic"] = True
             if digits > 6:
                 case["extra"] = "".join(rng.choice("0123456789") for _ in range(digits - 6))
                 if rng.random() < 0.3:
@@ -446,7 +453,7 @@ class C13(Prop):
         for d in (["td", 0], ["td", 1], ["td", -1], ["td", D43], ["int", 0], ["int", 1], ["int", 8796093],
                   ["float", (0.0).hex()], ["float", (0.5e-6).hex()], ["float", (1.5e-6).hex()],
                   ["float", (2.5e-6).hex()], ["float", (8796093.022208).hex()], ["float", (-1.9999995).hex()],
-                  ["float", (3.13).hex()], ["other", "str"], ["other", "none"], ["int", 10**15],
+                  ["float", (3.13).hex()], ["other", "str"], ["other", "none"], ["other", "fraction"], ["other", "decimal"], ["int", 10**15],
                   ["float", (1e300).hex()], ["int", 86400 * 10**9 - 1], ["int", 86400 * 10**9]):
             out.append(("boundary", {**base, "form": "z", "loc": 1600000000123456, "off": 0, "dur": d}))
         for data in self.DATAS:
@@ -698,10 +705,12 @@ class C13(Prop):
             if abs(du - exact) > HALF_PLUS:
                 return f"duration {du} µs for {f!r} s (exact {float(exact)!r} µs)"
             D0 = round(exact)
-            if abs(D0) <= 2**32 * M and D0 / M == f and du != D0:
+            if abs(D0) < 2**32 * M and D0 / M == f and du != D0:
                 return f"duration {du} µs for the float image {f!r} of {D0} µs"
         if d[0] == "other":
             return "a duration of the wrong type was accepted"
+        if out["ev"][0] != case["id"] or out["ev"][3] != canon_data(case["data"] or {}):
+            return f"id/data held {out['ev'][0]!r} {out['ev'][3]} differ from those given"
         # 3. JSON form
         j = out["json"]
         if not j["schema"]:
